@@ -87,8 +87,8 @@ class EventLog:
                 text = text.replace(real, ph)
         return text
 
-    def ev(self, kind, **data):
-        data["k"] = kind
+    def ev(self, _kind, /, **data):
+        data["k"] = _kind
         text = self.norm(canon(data))
         self._h.update(text.encode())
         self._h.update(b"\n")
